@@ -15,6 +15,10 @@ import (
 // included) before the call is found to have the wrong number of them. Steps separated by " | "
 // are separate evaluations on one interpreter; ERR stands for any error.
 var c02Fixed = []struct{ prog, want, trace string }{
+	// the empty list is a list: map and apply over an empty variadic tail
+	{"(defn f [& r] (map (fn [x] (* x 2)) r)) (list (f) (f 1 2))", "(nil (2 4))", ""},
+	{"(defn g [& r] (apply (fn [& q] (len q)) r)) (list (g) (g 1 2))", "(0 2)", ""},
+	{"(list (map (fn [x] (tr 1 x)) (list)) (apply (fn [] (tr 2 7)) (list)) (map (fn [x] x) []))", "(nil 7 [])", "2:7"},
 	// recursion written as a tail call: every iteration has its own parameters (closures made on the way keep theirs)
 	{"(defn mk [n acc] (cond (== n 0) acc (mk (- n 1) (cons (fn [] n) acc)))) (map (fn [f] (f)) (mk 3 (list)))", "(1 2 3)", ""},
 	{"(defn mk [n acc] (tr 1 n) (cond (== n 0) acc (mk (- n 1) (append acc (fn [] (* n 10)))))) (map (fn [f] (f)) (mk 3 []))", "[30 20 10]", "1:3,1:2,1:1,1:0"},
